@@ -21,6 +21,59 @@ describe(
 )
 
 
+def _skipped_only_when_owned_by_one(s, body, acc, rec) -> bool:
+    """Every loop path that does NOT add the record has passed tests saying: all CURIE-side names of the record are
+    sent by acc.synonym_to_prefix / prefix-owner lookups, and all URI-side names by acc.reverse_prefix_map, to the SAME
+    non-None target.  With tables that agree with the records (C05) that record holds every name literally, so
+    add_record(.., merge=True) would change nothing."""
+    from ..rules import URI_SIDE
+
+    if body is None:
+        return False
+    recs_ = {rec}
+    r_ = rec
+    while op(r_) == "call" and op(r_[1]) == "attr" and r_[1][2] in ("model_copy", "copy"):
+        r_ = r_[1][1]
+        recs_.add(r_)
+
+    def side_of(lst):
+        if op(lst) not in ("list", "tuple"):
+            return None
+        fields = set()
+        for e in lst[1]:
+            x = e[1] if op(e) == "star" else e
+            if op(x) != "attr" or x[1] not in recs_:
+                return None
+            fields.add(x[2])
+        return "curie" if fields == set(CURIE_SIDE) else "uri" if fields == set(URI_SIDE) else None
+
+    skipping = [p_ for p_ in body if (p_.out is None or p_.out[0] == "continue") and not any(isinstance(t2, tuple) and any(op(c2) == "call" and op(c2[1]) == "attr" and c2[1][2] in ("add_record", "append") for c2 in subterms(t2)) for e2 in p_.events for t2 in (e2.a, e2.b))]
+    if not skipping:
+        return False
+    for p_ in skipping:
+        targets = {"curie": set(), "uri": set()}
+        for g in p_.events:
+            if g.kind != "guard" or g.b is not True:
+                continue
+            for c in subterms(g.a):
+                if op(c) == "call" and c[1] == ("builtin", "all") and len(c[2]) == 1 and op(c[2][0]) == "comp" and len(c[2][0][3]) == 1 and not c[2][0][3][0][2]:
+                    comp = c[2][0]
+                    v_, src_, _ = comp[3][0]
+                    sd = side_of(src_)
+                    e_ = comp[2]
+                    if sd and op(e_) == "cmp" and e_[1] == "==":
+                        for look, tgt in ((e_[2], e_[3]), (e_[3], e_[2])):
+                            if op(look) == "call" and callee_name(look) == "get" and look[2] == (v_,) and op(look[1][1]) == "attr" and look[1][1][1] == acc:
+                                table = look[1][1][2]
+                                if (sd == "curie" and table == "synonym_to_prefix") or (sd == "uri" and table == "reverse_prefix_map"):
+                                    targets[sd].add(tgt)
+        common = targets["curie"] & targets["uri"]
+        not_none = any(g.kind == "guard" and ((g.b is False and op(g.a) == "cmp" and g.a[1] == "is" and g.a[2] in common and is_const(g.a[3], None)) or (g.b is True and op(g.a) == "cmp" and g.a[1] == "is not" and g.a[2] in common)) for g in p_.events)
+        if not common or not not_none:
+            return False
+    return True
+
+
 def fast_appends(cx: Cx, ob: Ob, fn, s) -> None:
     """A record put into the accumulator's ``records`` directly (a fast path around add_record) shares no name with
     what is there: the tests in front of the append must ask the accumulator's tables about EVERY name of the record -
@@ -263,6 +316,8 @@ def d1(cx: Cx, ob: Ob) -> None:
             # add_record: whether the test that selects the fast path implies "nothing to merge" is not a shape
             gs = [g for g in ctx.guards if g.kind == "guard" and g.line >= outer.line]
             ob.undecide(f"chain appends records directly (bypassing add_record) when not `{show(gs[0].a)[:60]}`: that the test implies there is nothing to merge is not decided")
+        elif any(g.kind == "guard" for g in ctx.guards if g.line >= outer.line) and _skipped_only_when_owned_by_one(s, body, acc0, rec):
+            ob.site(f"{where(fn, ev.line)} {fn.qualname}", "a record is skipped only when the accumulator's tables send every one of its names - both sides - to one and the same record")
         elif any(g.kind == "guard" for g in ctx.guards if g.line >= outer.line):
             gs = [g for g in ctx.guards if g.kind == "guard" and g.line >= outer.line]
             ob.violate(fn.qualname, where(fn, gs[0].line), f"chain adds records only under condition `{show(gs[0].a)[:60]}`: some records of the inputs are dropped", detail="conditional-add")
